@@ -545,3 +545,89 @@ def sphere_projection(P, rep, rule="GRID.sphere-projection"):
                       key=rule, witness="a sphere grid: nodes are not on their rays / not at the requested radius")
     else:
         rep.ok(rule, "project_on_sphere = R*p/|p| in all octants", F.loc, F.qn)
+
+
+def bilinear_patch(P, rep, rule="GRID.patch"):
+    rep.rule(rule, "gwb-grid lay_points: every node of a sphere block is the bilinear combination N1*P1 + N2*P2 + N3*P3 + N4*P4 of the four block "
+                   "corners with one set of weights for x, y and z; the weights are a partition of unity; the lattice parameters reach exactly "
+                   "-1 and +1 at i (j) = 0 and level, where the combination reduces to the corners (+-1, +-1) -> P1..P4 in order and to the "
+                   "edges, so neighbouring blocks share their edge nodes")
+    fs = [F for F in P.funcs.values() if F.qn.endswith("lay_points") and F.body is not None and F.tu.startswith("gwb-grid")]
+    if len(fs) != 1 or len(fs[0].params) < 17:
+        rep.unknown(rule, "lay_points(12 corner coordinates, x, y, z, hull, level) not found")
+        return
+    F = fs[0]
+    loops = [n for n in F.walk(F.body) if n.get("k") == "ForStmt"]
+    loops.sort(key=lambda l: len(list(F.ancestors(l))))
+    if len(loops) != 2:
+        rep.unknown(rule, "lay_points: %d loops (2 expected)" % len(loops))
+        return
+    corner = [sp.symbols("x%d y%d z%d" % (k, k, k), real=True) for k in (1, 2, 3, 4)]
+    env = {}
+    for k in range(4):
+        for c_ in range(3):
+            env[F.params[3 * k + c_]] = corner[k][c_]
+    outs = F.params[12:15]
+    level = sp.Symbol("level", positive=True, integer=True)
+    env[F.params[16]] = level
+    ivs = []
+    for l in loops:
+        init = l["c"][0]
+        iv = init["c"][0] if init is not None and init.get("k") == "DeclStmt" and init["c"] else None
+        cond = sc(l["c"][1])
+        if iv is None or not iv.get("c") or sc(iv["c"][0]).get("k") != "IntegerLiteral" or int(sc(iv["c"][0])["v"]) != 0 or cond is None or cond.get("op") != "<":
+            rep.unknown(rule, "lay_points: loop shape not recognised")
+            return
+        bound = VecEval(P, F, env=env).ev(cond["c"][1])
+        if sp.expand(bound - (level + 1)) != 0:
+            rep.violation(rule, "lay_points: a lattice loop runs to %s, not to level + 1" % bound, F.nloc(l), F.qn, "", "blocks do not have (level+1)^2 nodes", key=rule + "|range")
+            return
+        ivs.append(iv["r"])
+    jk, ik = ivs          # outer, inner
+    i_s, j_s = sp.symbols("i j", real=True)
+    env[ik], env[jk] = i_s, j_s
+    V = VecEval(P, F, env=env)
+    body = astq.stmts_of(loops[1]["c"][3])
+    stores = {}
+    try:
+        for st in body:
+            if st.get("k") == "DeclStmt":
+                V.stmt(st)
+            elif st.get("k") == "BinaryOperator" and st.get("op") == "=":
+                sub = astq.subscript(st["c"][0])
+                if sub and sc(sub[0]).get("k") == "DeclRefExpr" and sc(sub[0])["r"] in outs:
+                    stores[sc(sub[0])["r"]] = V.ev(st["c"][1])
+    except AnalysisBroken as e:
+        rep.unknown(rule, "lay_points: %s" % e)
+        return
+    if set(stores) != set(outs):
+        rep.unknown(rule, "lay_points: the three coordinate stores were not found")
+        return
+    problems = []
+    weights = None
+    for c_, pk in enumerate(outs):
+        e = sp.expand(stores[pk])
+        w = [e.coeff(corner[k][c_]) for k in range(4)]
+        if sp.expand(e - sum(w[k] * corner[k][c_] for k in range(4))) != 0:
+            problems.append("coordinate %d is not a combination of the four corners' coordinate %d" % (c_, c_))
+        if weights is None:
+            weights = w
+        elif any(sp.simplify(a - b) != 0 for a, b in zip(w, weights)):
+            problems.append("coordinate %d uses other weights than coordinate 0" % c_)
+    if weights is not None and not problems:
+        if sp.simplify(sum(weights) - 1) != 0:
+            problems.append("the weights sum to %s, not 1" % sp.simplify(sum(weights)))
+        for (iv_, jv_, want) in ((0, 0, 0), (level, 0, 1), (level, level, 2), (0, level, 3)):
+            ws = [sp.simplify(w.subs({i_s: iv_, j_s: jv_})) for w in weights]
+            if ws != [1 if k == want else 0 for k in range(4)]:
+                problems.append("at (i, j) = (%s, %s) the weights are %s, not corner P%d" % (iv_, jv_, ws, want + 1))
+        # an edge depends on its two corners only
+        for (fix, val, pair) in ((j_s, 0, (0, 1)), (i_s, level, (1, 2)), (j_s, level, (2, 3)), (i_s, 0, (3, 0))):
+            ws = [sp.simplify(w.subs(fix, val)) for w in weights]
+            if any(ws[k] != 0 for k in range(4) if k not in pair):
+                problems.append("the edge %s = %s involves a corner that is not on it" % (fix, val))
+    if problems:
+        rep.violation(rule, "lay_points: %s" % "; ".join(problems[:3]), F.loc, F.qn, "", "sphere blocks do not fit together / nodes are misplaced", key=rule,
+                      witness="gwb-grid with grid_type sphere")
+    else:
+        rep.ok(rule, "lay_points: bilinear patch, partition of unity, corners and edges reproduced", F.loc, F.qn)
